@@ -742,6 +742,19 @@ def main(argv):
             print(json.dumps(scenario, indent=1))
             print(json.dumps({k: (dict(v) if isinstance(v, Counter) else v) for k, v in out.items() if k != "log"}, indent=1, default=str))
         return EXIT_OK
+    if cmd == "resume-acct":
+        # child of acct.AcctSim.checkpoint_and_resume: replays the script up to the checkpoint with its own objects,
+        # swaps the parent's pickled exchange and broker in, and plays the rest
+        import base64
+        from tesim import acct
+        with open(a.arg) as f:
+            payload = json.load(f)
+        with sim_context(prng_seed=payload["scenario"].get("prng", 0)):
+            sim = acct.AcctSim(payload["scenario"], payload["prop"])
+            sim.resume_blob = base64.b64decode(payload["blob"])
+            out = sim.run()
+        print("RESUMED " + json.dumps({"violations": out["violations"][:1]}, default=str))
+        return EXIT_OK
     if cmd == "selftest-determinism":
         from tesim import selftest
         return selftest.determinism(a)
